@@ -5,6 +5,8 @@
 
 package cdrFile
 
+import "bytes"
+
 func verif_forall[T any](f func(T) bool) bool { return true }
 func verif_forall_range(lo, hi int, f func(int) bool) bool {
 	for k := lo; k < hi; k++ {
@@ -99,15 +101,30 @@ func specRecHdrByte(r CdrHeader, k int) byte {
 //@   ensures forall k int in 0..5 :: k < specRecHdrLen(header) ==> result[k] == specRecHdrByte(header, k)
 
 // ---- whole files -------------------------------------------------------------------
-// The file encoder and decoder are executed in place (not by contract) inside the lemma
-// harnesses below, with their record loops unrolled: the record dimension is therefore a
-// BOUNDED check (at most 2 records, stated in the lemma's precondition); the header
-// dimension (all field values, all 64 release-identifier combinations, routeing filter and
-// private extension of any length) is unbounded.
 
-//@ func (CDRFile).Encoding [C14 C15]
-//@   inline
-//@   loop 0: unroll 3
+func verif_bufLen(buf *bytes.Buffer) int          { return 0 }
+func verif_bufByte(buf *bytes.Buffer, k int) byte { return 0 }
+
+// specRecsLen: number of octets of the first n records (header plus payload each)
+func specRecsLen(list []CDR, n int) int {
+	if n <= 0 {
+		return 0
+	}
+	return specRecsLen(list, n-1) + specRecHdrLen(list[n-1].Hdr) + len(list[n-1].CdrByte)
+}
+
+// (CDRFile).Encoding writes the file header followed by every record (header, payload): the file
+// length is the sum of those sizes and the first 50 octets are the fixed header fields (C15).
+// The contents of the record area are covered by the bounded round-trip lemma below.
+// Physical size bound (environment): the records of a file fit in memory, so no prefix sum of their
+// sizes exceeds 2^44.
+//@ func (CDRFile).Encoding [C03 C14 C15]
+//@   requires forall n int :: 0 <= n && n <= len(cdfFile.CdrList) ==> 0 <= specRecsLen(cdfFile.CdrList, n) && specRecsLen(cdfFile.CdrList, n) <= 1<<44
+//@   ensures verif_fileLen(fileName) == specHdrLen(cdfFile.Hdr)+specRecsLen(cdfFile.CdrList, len(cdfFile.CdrList))
+//@   ensures forall k int in 0..50 :: verif_fileByte(fileName, k) == specHdrFixed(cdfFile.Hdr, k)
+//@   loop 0: unroll 3 when-inlined
+//@   loop 0: invariant 0 <= ITER && ITER <= len(cdfFile.CdrList) && buf != nil && verif_bufLen(buf) == specHdrLen(cdfFile.Hdr)+specRecsLen(cdfFile.CdrList, ITER)
+//@   loop 0: invariant forall k int in 0..50 :: verif_bufByte(buf, k) == specHdrFixed(cdfFile.Hdr, k)
 //@ func (*CDRFile).Decoding [C14]
 //@   inline
 //@   linear cdfFile.CdrList
@@ -152,6 +169,7 @@ func specRecHdrEq(a, b CdrHeader) bool {
 // Round trip (C14): writing a well-formed structure and reading it back yields an identical structure.
 // @ lemma verifLemmaFileRoundTrip [C14]
 // @   tier thorough
+// @   inline-calls (CDRFile).Encoding
 // @   bounded at most 2 records (record loop unrolled) after a header without routeing filter and private extension; all header and record field values, all release-identifier combinations and all payload lengths unbounded
 // @   requires specHdrOK(f.Hdr) && int(f.Hdr.NumberOfCdrsInFile) == len(f.CdrList) && len(f.CdrList) <= 2
 // @   requires len(f.Hdr.CDRRouteingFilter) == 0 && len(f.Hdr.PrivateExtension) == 0
@@ -171,6 +189,7 @@ func verifLemmaFileRoundTrip(f CDRFile, name string) (g CDRFile) {
 // Header round trip for every well-formed header (no records): all field values, all 64
 // release-identifier combinations, routeing filter and private extension of any length.
 // @ lemma verifLemmaHeaderRoundTrip [C14]
+// @   inline-calls (CDRFile).Encoding
 // @   requires specHdrOK(f.Hdr) && f.Hdr.NumberOfCdrsInFile == 0 && len(f.CdrList) == 0
 // @   ensures specHdrEq(g.Hdr, f.Hdr)
 // @   ensures forall k int :: 0 <= k && k < len(f.Hdr.CDRRouteingFilter) ==> g.Hdr.CDRRouteingFilter[k] == f.Hdr.CDRRouteingFilter[k]
